@@ -55,3 +55,6 @@ add('C05', 'exploration', 'exhaustive enumeration of scripts (seed pairs/triples
 add('C14', 'exploration', 'bounded exhaustive enumeration of region bodies over code-point class representatives x delimiter context pairs; every dictionary word x casings x contexts',
     '8 region kinds x every body of <= 2-3 fragments over one representative per code-point class of the current rule set (plus multi-character fragments) x every (left, right) pair of 18 delimiter contexts; every single-word key of the nine keyword dictionaries x casings x contexts, expected type from an own first-table-wins lookup in the documented order. Exhaustive within the body bound; covers every Python str body of that length for the regex layer.',
     'Trusted: CPython re; the class-partition argument (DESIGN 2.1); delimiter set per DESIGN 4.0 reading 5.', 'DESIGN.md 4/C14')
+add('C16', 'model_checking', 'explicit-state exploration of the path-distinguishing self-product of each lexer rule\'s NFA (model generated from the rule source, conformance-checked exhaustively against re)',
+    'For every rule of the current table an epsilon-NFA is derived mechanically from the re parse tree; after multiplicity-preserving epsilon elimination all reachable states of its self-product with a divergence bit are explored from every (q,q,0); exponential ambiguity iff (q,q,1) is reachable. The model is bound to the code by checking every word over the rule\'s own code-point classes up to length 5-6 against re (traces_validated_against_impl), and every loop state yields a pump string that the real tokenizer must finish within a CPU budget (in a killable child process).',
+    'Trusted: CPython re as a backtracking matcher over the modelled paths; look-arounds/back-references are over-approximated (only add paths); timing uses CPU time, a wide margin and a re-measurement.', 'DESIGN.md 4/C16')
